@@ -38,6 +38,7 @@ RULE = (
     'sign of zero kept). Non-trivial: configuration has sharing and tags and a non-default '
     'option point.'
 )
+RULE += (' ' + 'Also generated: members of a nested enum (Outer.Mode) and of an unrelated top-level enum with the same name and members; shared set nodes.')
 ASSUMPTIONS = [
     'tagged arguments all have values (property precondition)',
     'formatting of the emitted text is not judged',
